@@ -15,6 +15,6 @@ def run(j):
     p = subprocess.run(["/venv/bin/python", "/verif/tools/seedcheck.py", d, name, pid], stdout=subprocess.PIPE, stderr=subprocess.STDOUT, text=True)
     open(os.path.join(d, "done"), "w").write(name + "\n" + p.stdout[-3000:])
     return name + " <- " + d + ": " + p.stdout.strip().splitlines()[-1][:600] if p.stdout.strip() else name + ": (no output)"
-with cf.ThreadPoolExecutor(max_workers=3) as ex:
+with cf.ThreadPoolExecutor(max_workers=4) as ex:
     for r in ex.map(run, jobs):
         print(r, flush=True)
